@@ -1,7 +1,7 @@
 (* C16 - WorkerPool conserves tasks and always shuts down. Statements only.
    Model: Verif.C16_Pool.Model (interleaving system; `pinned` = code as pinned, `repaired` = code after the fix: commits). *)
 From Coq Require Import List ZArith Bool Permutation.
-From Verif.C16_Pool Require Import Model Inv Proofs Runs Refute Live Term Measure Group GroupProofs Options OptionsProofs.
+From Verif.C16_Pool Require Import Model Inv Proofs Runs Refute Live Term Measure Group GroupProofs Options OptionsProofs Waiters WaitersProofs.
 Import ListNotations.
 
 (* Every variant (pinned and repaired), every worker count >= 1, cancel on/off, every task program (nested submits), every
@@ -170,6 +170,55 @@ Example C16_group_pool_options_nonvacuous :
    nw c = 1 /\ (forall i, inflight i s = 0) /\ acc s = [0; 1; 2] /\ ran s = [0; 1; 2] /\ canc s = [] /\ all_dead s = true).
 Proof. vm_compute. repeat split; try reflexivity. Qed.
 
+(* External waiters (round 2; model Waiters.v).  The pool's Queue and PendingTasksCounter are public: any number of user
+   goroutines may block in Queue.WaitSizeIsAbove / WaitSizeIsBelow / WaitIsEmpty and PendingTasksCounter.WaitIsAbove /
+   WaitIsBelow / WaitIsZero; the first shares the condition variable elementAdded with the dispatcher.  With Broadcast in
+   Stack.Push (the code; xrun false) and ANY list of waiters of any kinds and thresholds, for every schedule of pool
+   threads and waiters: conservation as above, *)
+Theorem C16_waiters_conservation : forall c, 1 <= nw c -> forall scripts kinds sch,
+  let s := base (xrun false c sch (xinit c scripts kinds)) in
+  (forall i, cnt i (acc s) = cnt i (ran s) + cnt i (canc s) + inflight i s) /\
+  pending s = (Z.of_nat (length (acc s)) - Z.of_nat (length (ran s)) - Z.of_nat (length (canc s)))%Z.
+Proof. exact wx_conservation. Qed.
+
+(* ... and every reachable state in which neither a pool thread nor a waiter has an enabled step is final: nothing accepted
+   is left in flight and the counter is zero (every accepted task was run or cancelled), a stopped pool has terminated. *)
+Theorem C16_waiters_shutdown_terminates : forall n cn p, 1 <= n -> forall scripts kinds sch, let c := repaired n cn p in
+  let x := xrun false c sch (xinit c scripts kinds) in let s := base x in
+  xstuckb false c x = true ->
+  (forall i, inflight i s = 0) /\ pending s = 0%Z /\ (running s = false -> all_dead s = true /\ disp s = DDead) /\
+  (forall e, In e (exts s) -> (epc_ e = EIdle /\ ops e = []) \/ (running s = true /\ epc_ e = EIdle /\ exists r, ops e = OWaitShutdown :: r)).
+Proof. exact wx_shutdown_terminates. Qed.
+
+(* (progress form: WaitersProofs.wx_shutdown_progress - while the counter is not zero, or the pool is stopped and not
+   terminated, some pool thread or waiter has an enabled step) *)
+
+(* With Signal instead of Broadcast in Stack.Push (xrun true) the property is FALSE: a monitor in WaitSizeIsAbove(5), the
+   dispatcher parked behind it, Submit(7): nobody has an enabled step, the pool is running and idle, task 7 is accepted,
+   counted and queued, never run; WaitIsZero hangs.  Second witness: the order of the demonstration (dispatcher first; the
+   first Submit is served, the second lost).  Replayed on the code with that change: harness scripts w-monitor-*. *)
+Theorem C16_refuted_signal_wakeup :
+  let x := xrun true cS schS (xinit cS scriptsS kindsS) in let s := base x in
+  xstuckb true cS x = true /\ running s = true /\ disp s = DParked /\ acc s = [7] /\ ran s = [] /\ canc s = [] /\
+  queue s = [7] /\ pending s = 1%Z /\ parkA x = [PD; PW 0] /\ map epc_ (exts s) = [EIdle; EIdle] /\ map ops (exts s) = [[]; [OWaitZero]].
+Proof. exact refuted_signal_wakeup. Qed.
+
+Theorem C16_refuted_signal_wakeup_second :
+  let x := xrun true cS schS2 (xinit cS scriptsS2 kindsS) in let s := base x in
+  xstuckb true cS x = true /\ running s = true /\ acc s = [7; 8] /\ ran s = [7] /\ queue s = [8] /\ pending s = 1%Z /\
+  parkA x = [PD; PW 0].
+Proof. exact refuted_signal_wakeup_second. Qed.
+
+(* non-vacuity: the same schedules with Broadcast end in a state without enabled steps (hypothesis of the termination
+   theorem) in which everything ran, WaitIsZero returned and the monitor sleeps on a condition that is false *)
+Example C16_waiters_nonvacuous :
+  (let x := xrun false cS schS (xinit cS scriptsS kindsS) in let s := base x in
+   xstuckb false cS x = true /\ ran s = [7] /\ queue s = [] /\ pending s = 0%Z /\ map ops (exts s) = [[]; []] /\
+   wts x = [mkW (QAbove 5) WParked] /\ existsb (starved x) (wts x) = false) /\
+  (let x := xrun false cS schS2 (xinit cS scriptsS2 kindsS) in let s := base x in
+   xstuckb false cS x = true /\ ran s = [7; 8] /\ pending s = 0%Z /\ map ops (exts s) = [[]; []]).
+Proof. exact broadcast_wakeup_ok. Qed.
+
 (* The pinned code violates it: explicit schedules ending in stuck states (replayed on the pinned code with the verif hooks). *)
 Theorem C16_refuted_submit_race :
   let s := run cA schA (init cA scriptsA) in
@@ -221,3 +270,6 @@ Print Assumptions C16_pool_workers_option.
 Print Assumptions C16_group_pool_runs_backlog.
 Print Assumptions C16_refuted_submit_race.
 Print Assumptions C16_refuted_lost_wakeup.
+Print Assumptions C16_waiters_conservation.
+Print Assumptions C16_waiters_shutdown_terminates.
+Print Assumptions C16_refuted_signal_wakeup.
